@@ -4,7 +4,7 @@
 //! are compared (public observables + hooked hidden state); the first divergence is attributed to
 //! the property that governs the function executed at that step (DESIGN §3.4).
 
-use crate::cmp::{compare_hidden, compare_parser, compare_public, MisKind, Mismatch};
+use crate::cmp::{compare_hidden, compare_parser, compare_public, compare_public_opt, MisKind, Mismatch};
 use crate::hist::{esc, Call, History};
 use crate::model::parser::{conv, Act, PModel, St, F};
 use crate::model::term::Model;
@@ -262,6 +262,11 @@ pub struct Diff {
     /// a parser-register mismatch seen while a sequence is being collected; reported when the
     /// sequence dispatches, so that it can also be attributed to the function it corrupts
     deferred: Option<String>,
+    /// a second real terminal that receives every call the way the history spells it (feed_str in
+    /// one piece): the per-character differential must not be the only path that is watched
+    pub vt2: avt::Vt,
+    limited: bool,
+    call_props: Vec<&'static str>,
     pub vt: avt::Vt,
     pub rp: avt::parser::Parser,
     pub pm: PModel,
@@ -271,7 +276,7 @@ pub struct Diff {
 
 impl Diff {
     pub fn new(h: &History) -> Diff {
-        Diff { deferred: None, vt: h.build(), rp: avt::parser::Parser::new(), pm: PModel::new(), m: Model::new(h.cols, h.rows), since_full: 0 }
+        Diff { deferred: None, vt2: h.build(), limited: h.limit.is_some(), call_props: Vec::new(), vt: h.build(), rp: avt::parser::Parser::new(), pm: PModel::new(), m: Model::new(h.cols, h.rows), since_full: 0 }
     }
 
     fn diverge(props: Vec<&'static str>, what: String) -> End {
@@ -337,6 +342,11 @@ impl Diff {
         match mf {
             Some(f) => {
                 rep.count("functions", 1);
+                for p in props_of(&f, true) {
+                    if !self.call_props.contains(&p) {
+                        self.call_props.push(p);
+                    }
+                }
                 let in_focus = focus(&f);
                 let (key, before) = if in_focus { (step_key(&self.m, &f), Some(scalars(&self.m))) } else { (0, None) };
                 self.m.exec(&f, Some(&self.vt));
@@ -433,6 +443,33 @@ impl Diff {
 }
 
 impl Diff {
+    /// the call-level twin: same call through feed_str on the second terminal, compared with the model
+    fn twin_call(&mut self, call: &Call, what: &str) -> End {
+        if self.limited {
+            // under a finite limit feed() (never trims) and feed_str (trims per call) legitimately
+            // retain different amounts of scrollback, which a later taller resize makes visible:
+            // the twin is only comparable under unlimited scrollback (C12/C14 cover finite limits)
+            return End::Ok;
+        }
+        match call {
+            Call::FeedStr(s) => drop(self.vt2.feed_str(s)),
+            Call::Feed(s) => s.chars().for_each(|ch| self.vt2.feed(ch)),
+            Call::Resize(c, r) => drop(self.vt2.resize(*c, *r)),
+        }
+        let mut mis = compare_public_opt(&self.vt2, &self.m, usize::MAX, self.limited);
+        if mis.is_none() {
+            mis = compare_hidden(&self.vt2.verif_state(), &self.m);
+        }
+        if let Some(mis) = mis {
+            let mut props = vec!["C12"];
+            props.extend(self.call_props.iter().copied());
+            let props = refine(props, &mis);
+            return Self::diverge(props, format!("{}: the same call through feed_str (per-character feed() agrees with the model): {}", what, mis.msg));
+        }
+        self.call_props.clear();
+        End::Ok
+    }
+
     fn full_compare(&mut self, what: &str) -> End {
         self.since_full = 0;
         if let Some(mis) = compare_public(&self.vt, &self.m, usize::MAX) {
@@ -451,6 +488,15 @@ impl Diff {
         drop(self.vt.resize(cols, rows));
         self.m.resize(cols, rows, &self.vt);
         rep.count("resizes", 1);
+        if self.m.alt {
+            rep.count("resizes_on_alternate_screen", 1);
+            // the alternate screen keeps no scrollback: whatever a resize pushed above the view is gone
+            // when the call returns
+            let n = self.vt.lines().len();
+            if n != rows {
+                return Self::diverge(vec!["C06", "C13"], format!("after resize {}x{} -> {}x{} on the alternate screen lines() holds {} lines, rows = {}", oc, or, cols, rows, n, rows));
+            }
+        }
         let vs = self.vt.verif_state();
         if let Some(mis) = compare_hidden(&vs, &self.m) {
             let props = match mis.kind {
@@ -481,11 +527,21 @@ pub fn run_history(h: &History, rep: &mut Report, focus: &dyn Fn(&F) -> bool) ->
                     End::Ok => {}
                     e => return e,
                 }
+                match d.twin_call(call, &format!("call {}", i)) {
+                    End::Ok => {}
+                    e => return e,
+                }
             }
-            Call::Resize(c, r) => match d.resize(*c, *r, rep) {
-                End::Ok => {}
-                e => return e,
-            },
+            Call::Resize(c, r) => {
+                match d.resize(*c, *r, rep) {
+                    End::Ok => {}
+                    e => return e,
+                }
+                match d.twin_call(call, &format!("call {} (resize)", i)) {
+                    End::Ok => {}
+                    e => return e,
+                }
+            }
         }
     }
     if let Some(d) = d.deferred.take() {
